@@ -9,7 +9,7 @@ Spec:   WbemUri.tla   symbol-level transcription of to_wbem_uri (4 formats),
                       accepted, parser total.
         WbemUriMC.tla TLC checks the four laws on the transcription for every
                       path of a structured universe and every single-symbol
-                      mutation of the printed URIs; 8 regression variants
+                      mutation of the printed URIs; 10 regression variants
                       (5 of them are behaviours of the pinned tree) must fail.
         WbemUriTrace.tla  TraceKit instance: one observed vector per trace.
 Binding: every abstract path emitted by TLC (plus random case / key order /
@@ -44,6 +44,10 @@ REGRESSION = [
      "empty unquoted key value matches: val[0] IndexError"),
     ("WbemUriMCCanonVal.cfg", {"RoundTrip", "Canonical"},
      "canonical lower-cases string values"),
+    ("WbemUriMCHostLit.cfg", {"Canonical"},
+     "canonical keeps the case of a host that is an IP literal [..]"),
+    ("WbemUriMCExpSign.cfg", {"PrintedAccepted", "RoundTrip"},
+     "REAL_VALUE exponent sign 'E-?': the e+NN that repr() prints rejected"),
 ]
 
 
@@ -64,14 +68,23 @@ def traits(p, fmt, out=None):
                 out.add("real32/64-typed")
             if ("ex" in v["s"] or "ex2" in v["s"]) and "dot" not in v["s"]:
                 out.add("real-exponent-without-dot")
+            elif "ex" in v["s"]:
+                out.add("real-fraction-exponent-plus")
         elif v["t"] == "reference":
             traits(v["r"][0], fmt, out)
     return out
 
 
+def ip_literal_host(p):
+    return p["host"][:1] == ["lb"] or any(
+        b["v"]["t"] == "reference" and ip_literal_host(b["v"]["r"][0])
+        for b in p["kb"])
+
+
 def shape(p):
     nested = any(b["v"]["t"] == "reference" for b in p["kb"])
-    return p["kind"] + ("-nested" if nested else "")
+    return p["kind"] + ("-nested" if nested else "") + \
+        ("-ipliteralhost" if ip_literal_host(p) else "")
 
 
 def signature(ev, clauses):
@@ -264,7 +277,7 @@ def run(ctx):
         "one symbol = one character class; letters are ASCII (two bases x "
         "two cases, concrete letters chosen per vector), digits are decimal "
         "anchors of the intN ranges, one datetime literal, exponent suffixes "
-        "e+20 / e-07; '+', hex/binary/octal literals, non-ASCII names and "
+        "e+20 / e-07, one hex letter (a c d f) in IP literal hosts; '+', hex/binary/octal literals, non-ASCII names and "
         "typed URIs are reached only by the seeded raw-text parser vectors",
         "instance paths without keybindings are excluded (DSP0004 forbids "
         "them, to_wbem_uri warns and prints a class path)",
